@@ -4,7 +4,17 @@
 # recorded stable baseline still passes with the patch, demo PASSES without the patch. Then stores the seed.
 export GOFLAGS=-mod=mod GOPROXY=off
 src=$(readlink -f "$1"); dest=$2
-wt=/tmp/confirmwt-$$
+avail=$(df --output=avail -k / | tail -1)
+if [ "$avail" -lt 25000000 ]; then go clean -cache 2>/dev/null; fi
+slot=""
+for i in 0 1 2 3; do
+  exec {lockfd}>/tmp/confirmslot-$i.lock
+  if flock -n $lockfd; then slot=$i; break; fi
+  exec {lockfd}>&-
+done
+[ -z "$slot" ] && { echo "no free confirm slot"; exit 3; }
+wt=/tmp/confirmwt-slot$slot
+git -C /repo worktree remove --force "$wt" 2>/dev/null; rm -rf "$wt"; git -C /repo worktree prune
 git -C /repo worktree add -q --detach "$wt" HEAD || exit 3
 trap 'git -C /repo worktree remove --force "$wt" 2>/dev/null' EXIT
 demo_rel=$(head -1 "$src/demo_path.txt" | tr -d '\r' | awk '{print $1}')
